@@ -50,4 +50,6 @@ def run(tier):
             raise AnalysisBroken('C06: %d driver leaves / %d sp_preorder leaves, floors 800 / 5' % (n, nl))
         if cfgname == 'tested':
             r9_sibling.run(chk, prog, 'C06.D5', {p + u for p in 'dz' for u in R9_UNITS}, cfgname)
+        r9_sibling.run_twins(chk, prog, 'C06.twins', [('SRC/relax_snode.c', 'relax_snode', 'SRC/ilu_relax_snode.c', 'ilu_relax_snode', 'ext'),
+                                                 ('SRC/heap_relax_snode.c', 'heap_relax_snode', 'SRC/ilu_heap_relax_snode.c', 'ilu_heap_relax_snode', 'ext')], cfgname)
     return chk.finish()
